@@ -116,6 +116,37 @@ var scenarios = []scenario{
 		}
 		return n
 	}},
+	// the only stake anywhere in a custom coin drops to zero in a block whose EndBlock recalculates stakes:
+	// by byzantine evidence against its validator, and by a full unbond in a period block
+	{"sole-custom-coin-stake-zeroed-in-recalculation-block", func() *Node {
+		n := nodeStd(4)
+		a := n.Accts[0]
+		for v := 0; v < 2; v++ {
+			r := n.Block([][]byte{n.MkTx(a, transaction.TypeCreateCoin, transaction.CreateCoinData{Name: "c", Symbol: types.StrToCoinSymbol(fmt.Sprintf("SOLECOIN%d", v)), InitialAmount: pip(100000),
+				InitialReserve: pip(20000), ConstantReserveRatio: 50, MaxSupply: pip(1000000)}, 0, 0, 1, nil)}, nil)
+			if len(r.Txs) != 1 || r.Txs[0].Code != 0 {
+				panic(fmt.Sprint("setup failed ", codes(r)))
+			}
+			coin := types.CoinID(n.App.CurrentState().App().GetCoinsCount())
+			n.Block([][]byte{n.MkTx(a, transaction.TypeDelegate, transaction.DelegateDataV260{PubKey: n.Vals[1+v].Pub, Coin: coin, Value: pip(1000)}, 0, 0, 1, nil)}, nil)
+			for (n.Height+1)%stakePeriod != 0 {
+				n.Block(nil, nil)
+			}
+			n.Block(nil, nil) // the delegation is applied at this recalculation
+			if v == 0 {
+				n.Block(nil, nil)
+				n.Block(nil, &BlockOpts{Evidence: []int{1}})
+			} else {
+				for (n.Height+1)%stakePeriod != 0 {
+					n.Block(nil, nil)
+				}
+				n.Block([][]byte{n.MkTx(a, transaction.TypeUnbond, transaction.UnbondDataV3{PubKey: n.Vals[2].Pub, Coin: coin, Value: pip(1000)}, 0, 0, 1, nil)}, nil)
+			}
+			n.Block(nil, nil)
+			n.Block(nil, nil)
+		}
+		return n
+	}},
 	{"failed-tx-fee-from-dust-balance-through-pool", func() *Node {
 		n := nodeStd(4)
 		a, b := n.Accts[0], n.Accts[1]
